@@ -107,7 +107,12 @@ func unsafeSlice(fr *frame, args []value) value {
 
 func (i *interpreter) applyScale(cfg *harnessCfg) {
 	i.scale = nil
+	i.scalePkg = nil
 	for _, sc := range cfg.Scale {
+		if sc.Pkg != "" {
+			i.scalePkg = append(i.scalePkg, pkgScale{sc.Pkg, sc.Type, sc.From, sc.To})
+			continue
+		}
 		fn := i.findFuncByName(sc.Func)
 		if fn == nil {
 			panic(engineErr{"scale: function not found: " + sc.Func})
@@ -122,4 +127,12 @@ func (i *interpreter) applyScale(cfg *harnessCfg) {
 	}
 }
 
-func (i *interpreter) unapplyScale(cfg *harnessCfg) { i.scale = nil }
+func (i *interpreter) unapplyScale(cfg *harnessCfg) { i.scale, i.scalePkg = nil, nil }
+
+// pkgScale: a constant substitution for every function of one package,
+// restricted to constants of one basic type (robust against the guard moving
+// into a helper function).
+type pkgScale struct {
+	pkg, typ string
+	from, to int64
+}
